@@ -78,6 +78,39 @@ Proof.
   - exact (steps_keep_clean ser crc).
 Qed.
 
+(* Clause 2 with the votes of the LIVE coordinator: [LInv c es] ("what the coordinator holds for
+   each pending transaction is what its log es says") holds for a fresh coordinator, is kept by
+   every call (transaction ids are fresh) and is re-established by every restart.  Under it, a
+   transaction the live coordinator holds as Prepared or Committing comes back -- whatever later
+   records survive the crash, as long as they are not its own phase change / completion -- with
+   exactly the participants, the phase and the votes the live coordinator held.  (This is the
+   statement F-C13-latevote refuted before the fixes, see the witness below.) *)
+Theorem C13_prepared_comes_back_with_live_votes : forall now c es tx t extra,
+  LInv c es -> aget (pending c) tx = Some t -> phase t = PREPARED \/ phase t = COMMITTING ->
+  forallb (quiet tx) extra = true ->
+  aget (pending (fst (recover_entries gen_vote_scan_live gen_vote_first_wins now (es ++ extra)))) tx =
+    Some (Tx (parts t) (phase t) (votes t) now 5000).
+Proof. exact (prepared_comes_back_with_live_votes gen_vote_first_wins). Qed.
+
+Theorem C13_live_invariant :
+  LInv co0 [] /\
+  (forall now c es s c' w out, LInv c es -> fresh_begin c es s -> step now c s = (c', w, out) -> LInv c' (es ++ w)) /\
+  (forall now es, LInv (fst (recover_entries gen_vote_scan_live gen_vote_first_wins now es)) es).
+Proof.
+  split; [exact LInv_init|]. split; [exact LInv_step|].
+  exact (fun now es => LInv_restart gen_vote_first_wins now es).
+Qed.
+
+(* the same statement is FALSE for the recovery rule before the fixes (no live rule, last vote
+   wins): the reproduced finding F-C13-latevote *)
+Theorem C13_latevote_without_fix_refuted :
+  let ss := [Begin 0 [0; 1]; Vote 0 0 (VYes 0); Vote 0 1 (VYes 1); Vote 0 0 VNo] in
+  let '(c, es) := run_steps 1000 co0 ss in
+  exists t t', aget (pending c) 0 = Some t /\ phase t = PREPARED /\
+    aget (pending (fst (recover_entries false false 2000 es))) 0 = Some t' /\
+    votes t = [(0, VYes 0); (1, VYes 1)] /\ votes t' = [(0, VNo); (1, VYes 1)].
+Proof. exact latevote_without_fix_refuted. Qed.
+
 (* commit logs the outcome before it releases any lock *)
 Theorem C13_completion_logged_before_release : forall now c tx order c' w out,
   step now c (Commit tx order) = (c', w, out) -> out = [0] ->
@@ -100,3 +133,6 @@ Print Assumptions C13_logged_outcome_never_reversed.
 Print Assumptions C13_recovered_table.
 Print Assumptions C13_repeated_restarts.
 Print Assumptions C13_completion_logged_before_release.
+Print Assumptions C13_prepared_comes_back_with_live_votes.
+Print Assumptions C13_live_invariant.
+Print Assumptions C13_latevote_without_fix_refuted.
